@@ -20,8 +20,12 @@ func (i *interpreter) globalCell(g *ssa.Global) *value {
 	if c, ok := i.globals[g]; ok {
 		return c
 	}
+	if c, ok := i.extGlobals[g]; ok {
+		return c
+	}
 	var cell value
 	if g.Pkg != nil && !i.eng.isRepoPkg(g.Pkg) {
+		// dependency globals are provided by the environment model, per path
 		name := g.Pkg.Pkg.Path() + "." + g.Name()
 		if prov, ok := externGlobals[name]; ok {
 			cell = prov(i, g)
@@ -30,10 +34,14 @@ func (i *interpreter) globalCell(g *ssa.Global) *value {
 		} else {
 			panic(unsupported{"read of dependency global " + name})
 		}
-	} else {
-		cell = zero(mustDeref(g.Type()))
+		i.extGlobals[g] = &cell
+		return &cell
 	}
+	cell = zero(mustDeref(g.Type()))
 	i.globals[g] = &cell
+	if i.ps.gcells != nil && !strings.HasPrefix(g.Name(), "init$guard") {
+		i.ps.markReachable(&cell, 0)
+	}
 	return &cell
 }
 
@@ -499,8 +507,8 @@ func (ps *pathState) markAggregate(c *value, depth int) {
 	ps.markReachable(*c, depth+1)
 }
 
-// startTracking snapshots what is reachable from the repository's package-level variables.
-func (i *interpreter) startTracking() {
+// snapshotGlobals records what is reachable from the repository's package-level variables.
+func (i *interpreter) snapshotGlobals() {
 	ps := i.ps
 	ps.gcells = map[*value]bool{}
 	ps.gmaps = map[*omap]bool{}
@@ -509,10 +517,20 @@ func (i *interpreter) startTracking() {
 			ps.markReachable(cell, 0)
 		}
 	}
-	ps.trackW = true
+}
+
+// startTracking makes the harness-visible write log start now. Objects allocated
+// after package initialisation but stored into package state since then are included.
+func (i *interpreter) startTracking() {
+	i.snapshotGlobals()
+	i.ps.trackW = true
 }
 
 func (ps *pathState) noteWrite(what string) {
+	ps.dirty = true
+	if !ps.trackW {
+		return
+	}
 	if len(ps.writes) < 50 {
 		ps.writes = append(ps.writes, what+" at "+ps.curPos())
 	} else {
